@@ -36,6 +36,10 @@ def cases(chk: common.Check) -> list[dict]:
     # the function returns at once but the process takes 4.5 s to exit (a non-daemon thread): awaiting the handle yields only then
     cs.append({'func': 'linger', 'args': [4.5], 'logging': False, 'classes': ['returned 1'], 'timeout': 30})
     cs.append({'func': 'linger', 'args': [4.5], 'logging': True, 'classes': ['returned 1'], 'timeout': 30})
+    # many awaiters of one handle, a fresh one at every event-loop iteration around the exit of the process: each yields the outcome
+    for f, a in (('ret_value', []), ('sleep', [0.2]), ('raise_value_error', [])):
+        for lg in (False, True):
+            cs.append({'func': f, 'args': a, 'logging': lg, 'classes': ['returned 1'] if f != 'raise_value_error' else ['raised 1'], 'many_awaiters': True})
     # the function has returned but the process lingers: kill/terminate from another task while the handle is being awaited must get
     # through at once (the event loop is not blocked by the wait for the process)
     for lg in (False, True):
@@ -134,6 +138,11 @@ def run(chk: common.Check) -> None:
                 msgs.append('creation time is after exit time')
             if res.get('signal_error'):
                 msgs.append(f"a signal request raised: {res['signal_error']}")
+            if spec.get('many_awaiters'):
+                if res.get('awaiter_errors'):
+                    msgs.append(f"{res['awaiters']} tasks awaited the handle, one started at every event-loop iteration: awaiting raised {res['awaiter_errors'][0]}")
+                if res.get('awaiters_pending'):
+                    msgs.append(f"{res['awaiters_pending']} of {res['awaiters']} awaiters of the handle never got the outcome")
             if 'exitcode' in spec and res['exitcode'] != spec['exitcode']:
                 msgs.append(f"exit code {res['exitcode']}, expected {spec['exitcode']}")
             if spec.get('prompt_signal') and (res.get('signal_sent_late_by') is None or res['signal_sent_late_by'] > 2.5):
